@@ -9,6 +9,7 @@ import (
 	"fmt"
 	"sort"
 	"strings"
+	"sync"
 	"sync/atomic"
 	"testing"
 	"time"
@@ -20,7 +21,7 @@ import (
 	"github.com/gotid/god/lib/discov/internal"
 )
 
-var c15Prefixes = []string{"svc", "svc2"} // "svc2" shares the string prefix "svc": the delimiter must separate them
+var c15Prefixes = []string{"svc", "svc2", "svc9"} // "svc2" shares the string prefix "svc": the delimiter must separate them; "svc9" is only ever subscribed from inside a change listener and never written
 
 // An event toggles a key: a key that is present is deleted (publisher gone), an
 // absent key is put (publisher registers). A re-registered key publishes the
@@ -39,6 +40,8 @@ type c15Op struct {
 	NV  bool    `json:"nv,omitempty"`  // ev: new value even if the key had a life before
 	M   bool    `json:"m,omitempty"`   // the event is missed by every watch
 	X   bool    `json:"x,omitempty"`   // sub: exclusive
+	L   int     `json:"l,omitempty"`   // sub: change listener behaviour: 0 passive, 1 reads Values(), 2 subscribes the same key again, 3 subscribes another key of the same cluster
+	At  int     `json:"at,omitempty"`  // sub, l=2/3: the listener subscribes during its At-th and (At+3)-th invocation
 	Md  string  `json:"md,omitempty"`  // brk: stall close cancel error
 	N   int     `json:"n,omitempty"`   // sub/reload: failing Gets first
 	Mid []c15Ev `json:"mid,omitempty"` // sub/reload: events on prefix P between the snapshot and the watch
@@ -69,6 +72,9 @@ type c15Sub struct {
 	x         bool
 	dirty     bool
 	notif     atomic.Int64
+	elig      atomic.Int64 // listener invocations outside the scheduler-dependent window of a join with racing events
+	inCbDup   atomic.Bool  // Values() read inside the listener listed a value twice
+	deferred  atomic.Bool  // a join from inside the listener was postponed
 	lastNotif int64
 	lastView  string
 	// exclusive-mode model: per value the candidate owner keys and whether the value must be listed
@@ -86,18 +92,18 @@ type c15LogEv struct {
 }
 
 type c15Model struct {
-	store         [2]map[string]string // key -> value, per prefix
-	lastVal       [2]map[string]string // value of the key's previous life
-	lostSinceLoad [2]bool              // a missed event on the prefix is not yet covered by a snapshot
+	store         [3]map[string]string // key -> value, per prefix
+	lastVal       [3]map[string]string // value of the key's previous life
+	lostSinceLoad [3]bool              // a missed event on the prefix is not yet covered by a snapshot
 	rev           int64
 	lastLost      int64
 	log           []c15LogEv
-	watchers      [2][]int64 // revision each live watcher of the prefix was started from
+	watchers      [3][]int64 // revision each live watcher of the prefix was started from
 	subs          []*c15Sub
 	// shadow of the cluster's snapshot per prefix, only used to attribute a
 	// failure to a known root cause (never to decide pass/fail)
-	okBase, bugBase [2]map[string]string
-	loaded          [2]bool
+	okBase, bugBase [3]map[string]string
+	loaded          [3]bool
 	f1, f2          bool
 }
 
@@ -288,13 +294,106 @@ func c15Interp(t *testing.T, c c15Case) (v kit.Verdict) {
 			fake.Release()
 		}()
 		reloads := 0
-		addedInOutage := [2]map[string]int{{}, {}} // key -> outage number (reloads so far) of its missed put
+		addedInOutage := [3]map[string]int{{}, {}, {}} // key -> outage number (reloads so far) of its missed put
+
+		// Re-entrant change listeners. On the unmodified tree every notification path (watch event,
+		// reload diff, diff of a joining subscriber) calls the listeners without holding cluster.lock
+		// or the container lock, so a listener may read Values() or subscribe again on the same
+		// endpoints, as long as no reload starts while it runs (reload holds cluster.lock while it
+		// waits for the watchers) and no other load of the same key runs concurrently (Monitor reads
+		// the snapshot before it registers the listener) — both excluded here by construction: ops
+		// are separated by quiescence, and attaching is switched off while a join with events
+		// between snapshot and watch is in flight.
+		var nestedMu, attachMu sync.Mutex
+		type nestedSub struct {
+			s   *discov.Subscriber
+			p   int
+			err error
+		}
+		var nested []nestedSub
+		var attachOn atomic.Bool
+		attachOn.Store(true)
+		listener := func(s *c15Sub, sub *discov.Subscriber, behaviour, at int) func() {
+			return func() {
+				s.notif.Add(1)
+				if !attachOn.Load() {
+					return
+				}
+				n := s.elig.Add(1)
+				switch behaviour {
+				case 1:
+					if _, dup := c15Set(sub.Values()); dup {
+						s.inCbDup.Store(true)
+					}
+				case 2, 3:
+					if at < 1 {
+						at = 1
+					}
+					if n != int64(at) && n != int64(at+3) && !s.deferred.Load() {
+						return
+					}
+					q := s.p
+					if behaviour == 3 {
+						q = 2
+					}
+					// Several watchers of a key deliver the same event concurrently, so two listeners could
+					// subscribe at the same moment. Registry.Monitor is not atomic (it replays the cluster's
+					// snapshot, then registers the listener, then loads): of two concurrent joiners of one key
+					// whose snapshot is out of date, one can miss the other's diff and keep a dead key — a
+					// scheduler-dependent outcome of the unmodified tree, see FINDINGS.md "observations".
+					// Joins from inside listeners are therefore never run concurrently.
+					// (A listener reached while another one is subscribing — concurrently, or re-entrantly from
+					// the diff of that very join — postpones its own join to its next invocation.)
+					if !attachMu.TryLock() {
+						s.deferred.Store(true)
+						return
+					}
+					s.deferred.Store(false)
+					ns, err := discov.NewSubscriber([]string{eps}, c15Prefixes[q])
+					attachMu.Unlock()
+					nestedMu.Lock()
+					nested = append(nested, nestedSub{ns, q, err})
+					nestedMu.Unlock()
+				}
+			}
+		}
+		// adopt registers the subscribers created from inside listeners with the model: each took
+		// its own fresh snapshot, so it is in sync from the start.
+		adopt := func(what string) bool {
+			nestedMu.Lock()
+			list := nested
+			nested = nil
+			nestedMu.Unlock()
+			for _, n := range list {
+				if n.err != nil || n.s == nil {
+					fail = fmt.Sprintf("%s: NewSubscriber called from inside a change listener failed: %v", what, n.err)
+					return false
+				}
+				classes["subscribed-from-inside-listener"] = true
+				if n.p == 2 {
+					classes["subscribed-other-key-from-inside-listener"] = true
+				}
+				s := &c15Sub{s: n.s, p: n.p, cands: map[string]map[string]bool{}, pres: map[string]int{}, touched: map[string]bool{}}
+				n.s.AddListener(listener(s, n.s, 0, 0))
+				s.lastView, _ = c15Set(n.s.Values())
+				m.loadShadow(n.p)
+				m.subs = append(m.subs, s)
+			}
+			return true
+		}
 
 		// check compares every in-sync subscriber with the model store.
 		check := func(what string, only *c15Sub) bool {
+			if only == nil && !adopt(what) {
+				return false
+			}
 			for i, s := range m.subs {
 				if only != nil && s != only {
 					continue
+				}
+				if s.inCbDup.Load() {
+					fail = fmt.Sprintf("%s: Values() read from inside the change listener of subscriber %d listed a value twice", what, i)
+					return false
 				}
 				got := s.s.Values()
 				view, dup := c15Set(got)
@@ -413,6 +512,7 @@ func c15Interp(t *testing.T, c c15Case) (v kit.Verdict) {
 					nontrivial = true
 				}
 				kit.Wait()
+				pump(nil)
 				if !o.M {
 					for j, s := range m.subs {
 						if s.p == p && s.notif.Load() == before[j] {
@@ -449,8 +549,16 @@ func c15Interp(t *testing.T, c c15Case) (v kit.Verdict) {
 					return
 				}
 			case "sub":
-				if len(m.subs) >= 5 {
+				if len(m.subs) >= 8 {
 					continue
+				}
+				switch o.L {
+				case 1:
+					classes["listener-reads-values"] = true
+				case 2:
+					classes["listener-subscribes-same-key"] = true
+				case 3:
+					classes["listener-subscribes-other-key"] = true
 				}
 				s := &c15Sub{p: p, x: o.X, cands: map[string]map[string]bool{}, pres: map[string]int{}, touched: map[string]bool{}}
 				if o.N > 0 {
@@ -505,13 +613,17 @@ func c15Interp(t *testing.T, c c15Case) (v kit.Verdict) {
 				if o.X {
 					opts = append(opts, discov.Exclusive())
 				}
+				// with racing events the number and order of notifications depends on the scheduler and a
+				// concurrent Monitor of the same key is not safe on the unmodified tree: listeners stay
+				// passive until the join has settled
+				attachOn.Store(len(mids) == 0)
 				sub, err := discov.NewSubscriber([]string{eps}, c15Prefixes[p], opts...)
 				if err != nil {
 					fail = fmt.Sprintf("%s: NewSubscriber: %v", what, err)
 					return
 				}
 				s.s = sub
-				sub.AddListener(func() { s.notif.Add(1) })
+				sub.AddListener(listener(s, sub, o.L, o.At))
 				m.subs = append(m.subs, s)
 				if len(mids) == 0 {
 					// "immediately sees the current set": no wait
@@ -528,6 +640,7 @@ func c15Interp(t *testing.T, c c15Case) (v kit.Verdict) {
 					m.seen(p, e.del, e.key, e.val, true)
 				}
 				kit.Wait()
+				attachOn.Store(true)
 				pump(nil) // the joiner's own watch replays the events after its snapshot
 				if !check(what, nil) {
 					return
@@ -721,6 +834,10 @@ func c15Gen(rt *rapid.T) c15Case {
 		case "sub":
 			o.P = pickPrefix("subp")
 			o.X = rapid.IntRange(0, 9).Draw(rt, "excl") < 3
+			o.L = rapid.SampledFrom([]int{0, 0, 0, 1, 1, 2, 2, 3}).Draw(rt, "listener")
+			if o.L >= 2 {
+				o.At = rapid.IntRange(1, 4).Draw(rt, "attachat")
+			}
 			o.N = getErrs()
 			o.Mid = mids()
 			nsub[o.P]++
